@@ -19,8 +19,14 @@ def build(style, n, ret, seen):
     from spyne import Application, Service, srpc, Integer, Fault, ComplexModel, Iterable, Ignored
     from spyne.protocol.xml import XmlDocument
 
+    class Res(ComplexModel):
+        __namespace__ = 'tns'
+        _type_info = [('r1', Integer), ('r2', Integer)]
+
     def outcome():
         if ret == 'none': return None
+        if ret == 'cplx': return Res(r1=R[0], r2=R[1])
+        if ret == 'ignored_cplx': return Ignored(R[0])
         if ret == 'one': return R[0]
         if ret == 'two': return R[0], R[1]
         if ret == 'three': return R[0], R[1], R[2]
@@ -28,7 +34,8 @@ def build(style, n, ret, seen):
         if ret == 'fault': raise Fault('Client.Custom', 'custom')
         if ret == 'exc': raise ValueError('boom')
     returns = {'none': None, 'one': Integer, 'two': (Integer, Integer), 'three': (Integer, Integer, Integer),
-               'gen': Iterable(Integer), 'ignored': Integer, 'fault': Integer, 'exc': Integer}[ret]
+               'gen': Iterable(Integer), 'ignored': Integer, 'fault': Integer, 'exc': Integer,
+               'cplx': Res, 'ignored_cplx': Res}[ret]
     kw = {}
     if returns is not None:
         kw['_returns'] = returns
@@ -82,12 +89,12 @@ def norm(v):
     if isinstance(v, types.GeneratorType) or hasattr(v, '__next__'):
         v = list(v)
     if isinstance(v, (list, tuple)):
-        return ['value', [x for x in v]]
+        return ['value', [x if isinstance(x, (int, str)) or x is None else '?%s' % type(x).__name__ for x in v]]
     if isinstance(v, int):
         return ['value', [v]]
     # a response wrapper object of the Spyne client: its members in order
     try:
-        return ['value', [x for x in list(v)]]
+        return ['value', [x if isinstance(x, (int, str)) or x is None else '?%s' % type(x).__name__ for x in list(v)]]
     except Exception:
         return ['value', ['?%s' % type(v).__name__]]
 
@@ -108,6 +115,8 @@ def direct(app, case, seen):
     for i, m in enumerate(case['modes']):
         v, alt = 10 * (i + 1), 10 * (i + 1) + 5
         if m == 'pos': pos.append(v)
+        elif m == 'poszero': pos.append(0)
+        elif m == 'kwzero': kw[names[i]] = 0
         elif m == 'kw': kw[names[i]] = v
         elif m == 'both': pos.append(alt); kw[names[i]] = v
         elif m == 'kwnil': pos.append(v); kw[names[i]] = None
@@ -120,7 +129,36 @@ def direct(app, case, seen):
 
 
 def packed(case):
-    return [10 * (i + 1) if m != 'absent' else None for i, m in enumerate(case['modes'])]
+    return [None if m == 'absent' else (0 if m in ('kwzero', 'poszero') else 10 * (i + 1)) for i, m in enumerate(case['modes'])]
+
+
+def wire_json(app, case, seen):
+    """JsonDocument request written with the json module, reply decoded by the documented conventions."""
+    from spyne import Application
+    from spyne.protocol.json import JsonDocument
+    from spyne.server.wsgi import WsgiApplication
+    app2 = Application(app.services, 'tns', in_protocol=JsonDocument(), out_protocol=JsonDocument())
+    w = WsgiApplication(app2)
+    vals = packed(case)
+    body = json.dumps({'f': {'a%d' % (i + 1): v for i, v in enumerate(vals) if v is not None}}).encode()
+    del seen[:]
+    try:
+        status, out = call_wsgi(w, body, 'application/json')
+    except Exception as e:
+        return ['escape', [type(e).__name__]], [list(s) for s in seen]
+    calls = [list(s) for s in seen]
+    if not out.strip():
+        return ['value', []], calls
+    doc = json.loads(out.decode('utf8'))
+    if isinstance(doc, dict) and 'faultcode' in doc:
+        return ['fault', doc['faultcode'].split('.')], calls
+    if doc is None:
+        return ['value', []], calls
+    if isinstance(doc, dict):
+        return ['value', list(doc.values())], calls
+    if isinstance(doc, list):
+        return ['value', doc], calls
+    return ['value', [doc]], calls
 
 
 def call_wsgi(app_pair, body, ctype):
@@ -195,6 +233,8 @@ def run(ctx):
             continue
         dres, dargs = direct(app, c, seen)
         wires = [('xml',) + wire_xml(app, c, seen)]
+        if c['style'] != 'bare':          # JsonDocument cannot take a bare complex request (documented limitation)
+            wires.append(('json',) + wire_json(app, c, seen))
         if c['style'] in ('wrapped',) and c['ret'] not in ('gen',):
             for name, prot in (('soap11-client', Soap11), ('xml-client', XmlDocument)):
                 wires.append((name,) + wire_client(app, c, seen, prot))
